@@ -387,6 +387,14 @@ fn string_from_attrs(param: &abi_ast::Param, emitter: &dyn Emitter) -> Result<Op
             }
         };
 
+        if let (StringArgSize::Fixed { nulless: true, .. }, Some(furibug_span)) = (size, furibug) {
+            // without a null terminator, the bytes that the furigana bug appends would become part of the string
+            return Err(emitter.as_sized().emit(error!(
+                message("'furibug' cannot be combined with 'nulless' in '{}' format", param.format_char),
+                primary(furibug_span, ""),
+            )));
+        }
+
         Ok(Some(ArgEncoding::String {
             mask: {
                 user_mask.map(|sp| sp.value).or(default_mask)
